@@ -2,7 +2,7 @@
 # tools/kill_matrix.sh [tier] -- run every seeded change against the check of its property (plus overrides); writes seeded/KILL_MATRIX.md
 tier=${1:-quick}
 cd /verif
-declare -A EXTRA=( [C01-w1]="C15" [C02-w1]="C17" [C04-w2]="C15" [C13-m2]="C15" [C11-m2]="C19" [C12-m2]="C04" [C04-m2]="C04" [regress-D3]="C10" [regress-D4]="C10 C07" [regress-D1]="C02 C10" )
+declare -A EXTRA=( [C01-w1]="C15" [C02-w1]="C17" [C04-w2]="C15" [C13-m2]="C15" [C11-m2]="C19" [C12-m2]="C04" [C04-m2]="C04" [regress-D3]="C10" [regress-D4]="C10" [regress-D1]="C02 C10" )
 out=seeded/KILL_MATRIX.md
 echo "| seed | property | check | result |" > $out.tmp; echo "|---|---|---|---|" >> $out.tmp
 for d in seeded/*/; do
